@@ -142,6 +142,52 @@ func valueFidelity(c *Ctx, p *Prog, m *Model, mr *ModeReach, rule string) {
 						}
 					}
 				}
+				// the text of a float decides its own sign: "+Inf", "-0" and "NaN" do not follow from comparing the value
+				// with zero, so no branch of the printer that formats it tests the very value against 0
+				// (the same pure expression over the parameters, written twice, is the same value)
+				var pureKey func(v ssa.Value, d int) string
+				pureKey = func(v ssa.Value, d int) string {
+					if d > 4 {
+						return fmt.Sprintf("%p", v)
+					}
+					switch x := v.(type) {
+					case *ssa.Parameter:
+						return "p:" + x.Name()
+					case *ssa.Convert:
+						return "cv(" + pureKey(x.X, d+1) + ")"
+					case *ssa.ChangeType:
+						return pureKey(x.X, d+1)
+					case *ssa.Call:
+						if bi, ok := x.Call.Value.(*ssa.Builtin); ok && (bi.Name() == "real" || bi.Name() == "imag") {
+							return bi.Name() + "(" + pureKey(x.Call.Args[0], d+1) + ")"
+						}
+					}
+					return fmt.Sprintf("%p", v)
+				}
+				fk := pureKey(args[base], 0)
+				for _, bb := range fn.Blocks {
+					for _, bin := range bb.Instrs {
+						bo, isB := bin.(*ssa.BinOp)
+						if !isB {
+							continue
+						}
+						switch bo.Op {
+						case token.LSS, token.LEQ, token.GTR, token.GEQ:
+							var other ssa.Value
+							switch fk {
+							case pureKey(bo.X, 0):
+								other = bo.Y
+							case pureKey(bo.Y, 0):
+								other = bo.X
+							default:
+								continue
+							}
+							if k, isC := other.(*ssa.Const); isC && k.Value != nil && constant.Sign(k.Value) == 0 {
+								probs = append(probs, "the sign written around the number is decided by comparing the value with 0 at "+p.Pos(instrPos(bo))+": for +Inf, NaN and -0 the formatted text carries a sign (or none) that the comparison does not predict, so the text does not parse back")
+							}
+						}
+					}
+				}
 				probs = dedupStr(probs)
 				r.Check(len(probs) == 0, rule, key, p.Pos(instrPos(cs)), "shortest round-trip text: precision -1, bit size of the value's own type", strings.Join(probs, "; "))
 			case "strconv.AppendInt", "strconv.AppendUint", "strconv.FormatInt", "strconv.FormatUint":
@@ -3224,4 +3270,323 @@ func pooledCtxFromConstructor(c *Ctx, p *Prog, rule string) {
 	if n == 0 {
 		r.Unk(rule, "pool-constructor", "-", "no pool constructor function returning a *PrintCtx found")
 	}
+}
+
+// destinationsOnlyInSink: on the logging path a destination (what findWriter / the writer set's Get returns) is
+// obtained by the sink only: any other function of the print tree or spine that fetches one can write to it (or hand
+// it to something that does) outside the single Write of the record.
+func destinationsOnlyInSink(c *Ctx, p *Prog, m *Model, rule string) {
+	r := c.R
+	fw := p.Method(p.Slog, "Entry", "findWriter")
+	get := p.Method(p.Slog, "dualWriter", "Get")
+	if fw == nil || get == nil {
+		r.Unk(rule, "destination-fetch", "-", "findWriter / dualWriter.Get not found")
+		return
+	}
+	region := map[*ssa.Function]bool{}
+	for fn := range printTree(p, m) {
+		region[fn] = true
+	}
+	for fn := range m.Spine {
+		region[fn] = true
+	}
+	for _, fn := range failureRegion(p, m) {
+		region[fn] = true
+	}
+	var bad []string
+	n := 0
+	for fn := range region {
+		for _, cs := range callsIn(fn) {
+			cal := calleeOf(cs)
+			if cal != fw && cal != get {
+				continue
+			}
+			n++
+			if m.SinkFns[fn] || fn == fw {
+				continue
+			}
+			bad = append(bad, shortName(fn)+" at "+p.Pos(instrPos(cs)))
+		}
+	}
+	sort.Strings(bad)
+	r.Check(len(bad) == 0 && n > 0, rule, "destination-fetch", "-", fmt.Sprintf("the %d fetches of a destination on the logging path are all in the sink", n),
+		"a destination is fetched on the logging path outside the sink ("+strings.Join(bad, "; ")+"): whoever receives it can write to it, so a record is no longer exactly one whole Write")
+}
+
+// bufferAppendOnly: the encoder only appends: outside the bytes.Buffer clones no function of the print tree stores
+// into an element of the formatting buffer (overwriting the last byte written, e.g. turning a trailing separator
+// into a closing bracket, destroys the opening bracket of an empty list).
+func bufferAppendOnly(c *Ctx, p *Prog, m *Model, rule string) {
+	r := c.R
+	clones := map[string]bool{}
+	for _, n := range c19Methods {
+		clones[n] = true
+	}
+	for _, n := range []string{"grow", "tryGrowByReslice", "growSlice", "readSlice", "empty"} {
+		clones[n] = true
+	}
+	var bad []string
+	n := 0
+	for _, fn := range sortedTree(p, m) {
+		if fn.Pkg != p.Slog && (origin(fn) == nil || origin(fn).Pkg != p.Slog) {
+			continue
+		}
+		n++
+		if fn.Signature.Recv() != nil && typeName(fn.Signature.Recv().Type()) == "PrintCtx" && clones[nm(fn)] {
+			continue
+		}
+		if nm(origin(fn)) == "ctoasimple" {
+			// the one named exception: the complex-number printer writes a provisional '+' between the two parts and, when
+			// the imaginary part brings its own sign, shifts that part left over it and patches the final byte; it only
+			// touches bytes it appended itself in the same call (decided by reading the buffer, see R04.8's sign rule)
+			continue
+		}
+		for _, b := range fn.Blocks {
+			for _, in := range b.Instrs {
+				st, ok := in.(*ssa.Store)
+				if !ok {
+					continue
+				}
+				ia, ok := st.Addr.(*ssa.IndexAddr)
+				if !ok {
+					continue
+				}
+				if _, isBuf := isFieldLoadOf(strip(ia.X), "PrintCtx", "buf"); isBuf {
+					bad = append(bad, shortName(fn)+" at "+p.Pos(instrPos(st)))
+				}
+			}
+		}
+	}
+	sort.Strings(bad)
+	r.Check(len(bad) == 0 && n > 0, rule, "append-only", "-", fmt.Sprintf("none of the %d functions of the print tree overwrites a byte of the formatting buffer", n),
+		"the formatting buffer is overwritten in place ("+strings.Join(bad, "; ")+"): a byte already written (a bracket, a quote, a separator of the enclosing list) is replaced, so the record is not the sequence of tokens the encoder appended")
+}
+
+// timeTextQuoted: in the two machine-readable formats a formatted time is a quoted string: every mode-feasible call of
+// time.Time.AppendFormat on the print tree has the quote character written just before it and just after it (the
+// nearest constant-byte emissions on either side, in its own block or the straight-line neighbours).
+func timeTextQuoted(c *Ctx, p *Prog, m *Model, mode Mode, rule string) {
+	r := c.R
+	mr := NewModeReach(p, m, mode, sessionEntries(p), true)
+	constByteOf := func(in ssa.Instruction) (int64, bool) {
+		cs, ok := in.(ssa.CallInstruction)
+		if !ok {
+			return 0, false
+		}
+		cal := calleeOf(cs)
+		if cal == nil || cal.Pkg != p.Slog {
+			return 0, false
+		}
+		switch nm(cal) {
+		case "pcAppendByte", "WriteByte", "pcAppendRune", "WriteRune":
+			if len(cs.Common().Args) == 2 {
+				if k, isC := constInt(cs.Common().Args[1]); isC {
+					return k, true
+				}
+			}
+			return -1, true
+		}
+		return 0, false
+	}
+	n := 0
+	var fns []*ssa.Function
+	for fn := range mr.Blocks {
+		fns = append(fns, fn)
+	}
+	sort.Slice(fns, func(i, j int) bool { return shortName(fns[i]) < shortName(fns[j]) })
+	for _, fn := range fns {
+		for _, cs := range callsIn(fn) {
+			cal := calleeOf(cs)
+			if cal == nil || cal.String() != "(time.Time).AppendFormat" || !mr.Blocks[fn][cs.Block()] {
+				continue
+			}
+			n++
+			b := cs.Block()
+			idx := 0
+			for i, in := range b.Instrs {
+				if in == ssa.Instruction(cs) {
+					idx = i
+				}
+			}
+			before, after := int64(-2), int64(-2)
+			for bb, i := b, idx-1; ; {
+				if i < 0 {
+					var feas []*ssa.BasicBlock
+					for _, pr := range bb.Preds {
+						if modeEdgeFeasible(pr, bb, mode) {
+							feas = append(feas, pr)
+						}
+					}
+					if len(feas) != 1 {
+						break
+					}
+					bb = feas[0]
+					i = len(bb.Instrs) - 1
+					continue
+				}
+				if k, ok := constByteOf(bb.Instrs[i]); ok {
+					before = k
+					break
+				}
+				i--
+			}
+			for bb, i := b, idx+1; ; {
+				if i >= len(bb.Instrs) {
+					succs := feasibleSuccs(bb, mode)
+					if len(succs) != 1 {
+						break
+					}
+					bb = succs[0]
+					i = 0
+					continue
+				}
+				if k, ok := constByteOf(bb.Instrs[i]); ok {
+					after = k
+					break
+				}
+				i++
+			}
+			key := fmt.Sprintf("time-quoted[%s]:%s#%d", mode, shortName(fn), ordinalOfCallI(fn, cs))
+			r.Check(before == '"' && after == '"', rule, key, p.Pos(instrPos(cs)), "the formatted time stands between two quote characters",
+				fmt.Sprintf("in %s mode a formatted time is written without the quote character before and after it (nearest constant bytes: %d / %d): the timestamp is bare text with colons and blanks, so the record is not well-formed", mode, before, after))
+		}
+	}
+	if n == 0 {
+		r.Unk(rule, fmt.Sprintf("time-quoted[%s]", mode), "-", "no feasible time.Time.AppendFormat on the print tree in this mode")
+	}
+}
+
+// flagLoopsTraversal: AddFlags / RemoveFlags apply every flag of their argument list: the loop around the store to the
+// flag word has its natural exit only (a return for an "already set" flag drops the flags listed after it).
+func flagLoopsTraversal(c *Ctx, p *Prog, rule string) {
+	r := c.R
+	fg := p.Global(p.Slog, "flags")
+	n := 0
+	for _, name := range []string{"AddFlags", "RemoveFlags"} {
+		fn := p.Func(p.Slog, name)
+		if fn == nil || fg == nil {
+			r.Unk(rule, "traversal:"+name, "-", "not found")
+			continue
+		}
+		for _, b := range fn.Blocks {
+			for _, in := range b.Instrs {
+				if st, ok := in.(*ssa.Store); ok && st.Addr == ssa.Value(fg) && inLoop(b) {
+					n++
+					fullTraversal(c, p, rule, "traversal:"+name, st, "the update of the flag word")
+				}
+			}
+		}
+	}
+	if n < 2 {
+		r.Unk(rule, "traversal:flags", "-", "expected a loop over the argument list in AddFlags and RemoveFlags, found %d", n)
+	}
+}
+
+// attrCopiesWhole: wherever an attribute list is duplicated with the builtin copy, the destination is made with the
+// length of the source (make([]Attr, len(src))): copying into a slice of some other length (a pooled slice opened to
+// its capacity) silently drops the attributes that do not fit.
+func attrCopiesWhole(c *Ctx, p *Prog, rule string) {
+	r := c.R
+	isAttrList := func(t types.Type) bool {
+		sl, ok := t.Underlying().(*types.Slice)
+		return ok && typeName(sl.Elem()) == "Attr"
+	}
+	n := 0
+	var bad []string
+	for _, fn := range p.RepoFuncs() {
+		if fn.Pkg != p.Slog {
+			continue
+		}
+		for _, b := range fn.Blocks {
+			for _, in := range b.Instrs {
+				call, ok := in.(*ssa.Call)
+				if !ok || !isBuiltinCall(call, "copy") || !isAttrList(call.Common().Args[1].Type()) {
+					continue
+				}
+				n++
+				dst, src := strip(call.Common().Args[0]), strip(call.Common().Args[1])
+				okLen := false
+				for v := dst; ; {
+					if sl, isSl := v.(*ssa.Slice); isSl && sl.Low == nil && sl.High == nil {
+						v = strip(sl.X)
+						continue
+					}
+					if mk, isMk := v.(*ssa.MakeSlice); isMk {
+						if y, isLen := lenCallOf(mk.Len); isLen && y == strip(src) {
+							okLen = true
+						}
+					}
+					break
+				}
+				if !okLen {
+					bad = append(bad, shortName(fn)+" at "+p.Pos(instrPos(call)))
+				}
+			}
+		}
+	}
+	sort.Strings(bad)
+	r.Check(len(bad) == 0, rule, "attr-copy-whole", "-", fmt.Sprintf("%d copies of attribute lists, each into a destination made with the source's length", n),
+		"an attribute list is copied into a destination whose length is not the source's ("+strings.Join(bad, "; ")+"): attributes beyond that length are silently dropped from the record")
+}
+
+// pathComparedAsGiven: registered prefixes are compared with the path as it was given: in checkpath and the private
+// helpers it reaches, the string tested with strings.HasPrefix / rewritten with ReplaceAll never depends on a result
+// of path normalisation (filepath.Clean, Abs, EvalSymlinks, ToSlash, FromSlash ...): a mapping registered in another
+// spelling of the same directory (./x, x/, a/../x) would stop matching although the path lies under it.
+func pathComparedAsGiven(c *Ctx, p *Prog, rule string) {
+	r := c.R
+	cp := p.Func(p.Slog, "checkpath")
+	if cp == nil {
+		r.Unk(rule, "as-given:checkpath", "-", "checkpath not found")
+		return
+	}
+	normalising := func(v ssa.Value) string {
+		hit := ""
+		seen := map[ssa.Value]bool{}
+		var walk func(v ssa.Value, d int)
+		walk = func(v ssa.Value, d int) {
+			if v == nil || seen[v] || d > 12 || hit != "" {
+				return
+			}
+			seen[v] = true
+			if call, ok := v.(*ssa.Call); ok {
+				if cal := calleeOf(call); cal != nil && cal.Pkg != nil {
+					pp := cal.Pkg.Pkg.Path()
+					if pp == "path/filepath" || pp == "path" {
+						switch cal.Name() {
+						case "Clean", "Abs", "EvalSymlinks", "ToSlash", "FromSlash", "Join", "Base", "Dir":
+							hit = pp + "." + cal.Name()
+							return
+						}
+					}
+				}
+			}
+			if in, ok := v.(ssa.Instruction); ok {
+				for _, op := range in.Operands(nil) {
+					if *op != nil {
+						walk(*op, d+1)
+					}
+				}
+			}
+		}
+		walk(v, 0)
+		return hit
+	}
+	n := 0
+	var bad []string
+	for fn := range staticReach([]*ssa.Function{cp}, func(f *ssa.Function) bool { return f.Pkg != p.Slog }) {
+		for _, cs := range callsIn(fn) {
+			cal := calleeOf(cs)
+			if cal == nil || cal.Pkg == nil || cal.Pkg.Pkg.Path() != "strings" || (cal.Name() != "HasPrefix" && cal.Name() != "ReplaceAll" && cal.Name() != "CutPrefix" && cal.Name() != "TrimPrefix") {
+				continue
+			}
+			n++
+			if h := normalising(cs.Common().Args[0]); h != "" {
+				bad = append(bad, fmt.Sprintf("%s at %s (through %s)", cal.Name(), p.Pos(instrPos(cs)), h))
+			}
+		}
+	}
+	sort.Strings(bad)
+	r.Check(len(bad) == 0 && n > 0, rule, "as-given:checkpath", p.FuncPos(cp), fmt.Sprintf("the %d prefix tests / rewrites work on the path as given", n),
+		"the path is normalised before it is compared with the registered prefixes ("+strings.Join(bad, "; ")+"): a mapping registered in another spelling of the directory no longer matches, and the directory is reported")
 }
